@@ -183,11 +183,24 @@ def make_scratch(repo, reuse=None, fresh=False):
         key = hashlib.sha1(os.path.realpath(repo).encode()).hexdigest()[:10]
         root = os.path.join(BUILD_BASE, "ws-" + key)
         os.makedirs(root, exist_ok=True)
+        # housekeeping (we hold the setup lock): drop cached workspaces whose source tree no longer exists
+        # (temporary mutant / seeded-defect trees).  Their artifacts in the shared target dir stay until --clean;
+        # use --fresh for throw-away trees if that matters.
+        for d in os.listdir(BUILD_BASE):
+            marker = os.path.join(BUILD_BASE, d, ".verif_repo_path")
+            if d.startswith("ws-") and os.path.isfile(marker):
+                try:
+                    with open(marker) as f:
+                        src = f.read().strip()
+                    if src and not os.path.isdir(src):
+                        shutil.rmtree(os.path.join(BUILD_BASE, d), ignore_errors=True)
+                except Exception:
+                    pass
     _check_location(root, "scratch dir", repo)
     # 1. working-tree copy (no target/, no .git/)
     subprocess.run(
         ["rsync", "-a", "--delete", "--exclude", "/target", "--exclude", "/.git", "--exclude", "/verif-kani",
-         "--exclude", "/.cargo", "--exclude", "/Cargo.toml", "--exclude", "/frost-core/src/lib.rs",
+         "--exclude", "/.cargo", "--exclude", "/.verif_repo_path", "--exclude", "/Cargo.toml", "--exclude", "/frost-core/src/lib.rs",
          repo.rstrip("/") + "/", root + "/"],
         check=True,
     )
@@ -218,6 +231,8 @@ def make_scratch(repo, reuse=None, fresh=False):
     # 4. harness crate
     dst = os.path.join(root, "verif-kani")
     subprocess.run(["rsync", "-a", "--delete", "--exclude", "/target", CRATE + "/", dst + "/"], check=True)
+    with open(os.path.join(root, ".verif_repo_path"), "w", encoding="utf-8") as f:
+        f.write(os.path.realpath(repo) + "\n")
     # 5. offline cargo config
     os.makedirs(os.path.join(root, ".cargo"), exist_ok=True)
     with open(os.path.join(root, ".cargo", "config.toml"), "w", encoding="utf-8") as f:
